@@ -9,6 +9,7 @@
   `dict[key, Decimal]` ↦ `List (String × Rat)` in insertion order, keys distinct (the tie theorems assume it)
 -/
 import Demeter.Num
+import Demeter.Gen.Consts
 namespace Demeter.Py
 
 /-- exception classes the translated subset can raise -/
@@ -83,5 +84,26 @@ inductive XDec
 
 /-- `sum(xs)` of Decimals: starts from the int 0 and adds left to right; every `+` rounds (also the first, `0 + x`) -/
 def dsum (cx : NumCtx) (xs : List Rat) : Rat := xs.foldl (fun acc x => cx.add acc x) 0
+
+/-- `rounding=` of `Decimal.quantize` -/
+inductive Rounding | halfUp | halfEven | down
+  deriving DecidableEq, Repr
+
+/-- `10 ** e` as a rational -/
+def tenPow (e : Int) : Rat := if e ≥ 0 then ((pow10 e.toNat : Nat) : Rat) else 1 / ((pow10 (-e).toNat : Nat) : Rat)
+
+/-- the value of `x.quantize(Decimal(f"1e{e}"), rounding=mode)`: the multiple of `10^e` nearest to `x` -/
+def quantValue (mode : Rounding) (x : Rat) (e : Int) : Rat :=
+  let q (k : Nat) (y : Rat) : Rat := match mode with
+    | .halfUp => quantHalfUp k y
+    | .halfEven => quantHalfEven k y
+    | .down => quantDown k y
+  if e ≤ 0 then q (-e).toNat x else q 0 (x / tenPow e) * tenPow e
+
+/-- `x.quantize(...)`: `InvalidOperation` when the coefficient of the result needs more than `prec` digits -/
+def quantize (mode : Rounding) (x : Rat) (e : Int) : M Rat :=
+  let v := quantValue mode x e
+  let coeff := v / tenPow e          -- an integer
+  if coeff.num.natAbs ≥ 10 ^ Gen.decimalPrec then .error .InvalidOperation else .ok v
 
 end Demeter.Py
